@@ -168,6 +168,88 @@ claim('C01',
       'Trusted: python ast, the E4 evaluator and its native models of TextBlock/chunk/cond_chunk/flatten (layout '
       'only, justified by C17/C18), the C++ lexer and statement patterns, C03.sides for provides/requires provenance.')
 
+claim('C02',
+      'generator template abstraction (E4) with scenario evaluation + C++ token patterns; enum-evaluated filters; '
+      'thorough: clang compile-fail witnesses (with passing twins) on the strict-port header reconstructed by constant '
+      'folding',
+      'Static rule set on the generator templates: mts_ports / sts_ports partition the ports by semantics and no '
+      'constructor statement is emitted for an STS port; per semantics x multi-client branch the accessor\'s strict '
+      'type (Sts/Mts), its target and the member variable agree and the chain is exhaustive; provides in-event links '
+      'are `return dzn::shell(<facilities dispatcher>, <closure with the forwarded call>)`, requires out-event links '
+      'post a closure to the dispatcher; deferred closures capture exactly the IN formals by value. Thorough adds '
+      'compiler witnesses that Sts/Mts of one or of different interfaces cannot be connected or converted. Whether '
+      'dzn::shell / dzn::pump block or post is the Dezyne runtime\'s behaviour and is not decided.',
+      'Trusted: python ast, E4 evaluator and C++ token patterns, clang++ 14 and the mock port for the witnesses.')
+
+claim('C04',
+      'generator template abstraction (E4) + C++ token patterns for the claim / release / delivery links; AST rules on '
+      'check_multiclient_cfg; clang -ast-dump=json rules on the instantiated MultiClientSelector<MockPort>',
+      'Static rule set for the per-step transition shapes: claim / release links are keyed by the configured events; '
+      'Select(identifier) only under `r == <root-qualified granting reply of the resolved enum>` with r the forwarded '
+      'call\'s result, returned unchanged; Deselect(identifier) after the forwarded release; out-events are delivered '
+      'under has_value() of the value obtained from CurrentClient() of the same port, on that value\'s port; all client '
+      'in-events reach the component through the arbitered port whose in-events are dzn::shell links; every field of the '
+      'multi-client settings is validated with MultiClientCfgError and the feature is restricted to MTS; in the support '
+      'header Select assigns the selection only for registered clients. Known finding K1 (Deselect resets whoever '
+      'calls) is reported as KNOWN-FINDING. Behaviour over histories of claims/releases is a trace property and is NOT '
+      'decided.',
+      'Trusted: python ast, E4/E5, clang++ 14 JSON AST of the explicit instantiation, /verif/cxx/mock.')
+
+claim('C06',
+      'constant folding of the six create_header functions with the E4 evaluator and type checking of the '
+      'reconstructed headers by the clang++ front end (alone / twice / together / two prefixes / explicit '
+      'instantiation); E4 evaluation of the shell header/source frames for guard and linkage; AST set-comparison '
+      'rules for include closure and declaration/definition pairing',
+      'Static rule set: every quoted include names the model\'s own header, the shell header or a returned support '
+      'file; every function declared in the shell header is defined in the source; every generated header frame emits an '
+      'include guard before the first declaration; the shell is never wrapped in an unnamed namespace; namespace, '
+      'spelling and file prefix derive from one value; the six support headers (the only C++ whose text does not depend '
+      'on the model) are accepted by clang++ -std=c++17 on their own, twice in one TU, all together in both orders and '
+      '(thorough) under two prefixes with every template explicitly instantiated against a Dezyne-shaped mock port. That '
+      'the shell header/source compile for every model is NOT decided (their text depends on model values).',
+      'Trusted: python ast, E4 constant folding, clang++ 14, the mock runtime headers under /verif/cxx/mock. No '
+      'include-what-you-use lint is applied.')
+
+claim('C09',
+      'generator template abstraction (E4) evaluated per FacilitiesOrigin member + C++ token patterns on the '
+      'member-init list and FacilitiesCheck body; AST order rules',
+      'Static rule set per origin: CREATE - dispatcher, runtime and locator are value members, a Locator() accessor '
+      'returns the locator member, the locator is initialised from FacilitiesCheck(<param>).clone() with both owned '
+      'facilities set afterwards and the encapsulee is built from the locator member; IMPORT - the dispatcher is a '
+      'reference bound to FacilitiesCheck(<param>).get<dzn::pump>(), no runtime/locator/accessor, the encapsulee is built '
+      'from the parameter; FacilitiesCheck tests dzn::pump and dzn::runtime with != nullptr (CREATE) / == nullptr '
+      '(IMPORT), throws, returns its parameter and is static; declaration order is a topological order of the '
+      'member-init dependencies. Object identity and exceptions at run time and the semantics of dzn::locator are not '
+      'decided.',
+      'Trusted: python ast, E4 evaluator and C++ token patterns.')
+
+claim('C10',
+      'generator template abstraction (E4) of FinalConstruct() evaluated over the five port kinds + clang '
+      '-ast-dump=json rules on MultiClientSelector<MockPort>::FinalConstruct / Index / operator()',
+      'Static rule set: for every kind of exposed port exactly one check statement is emitted on the object the accessor '
+      'hands out (check_bindings() for plain ports, FinalConstruct() of the selector for a multi-client port); the parent '
+      'meta is assigned from the parameter, the encapsulee\'s own check_bindings() is called, nothing returns or throws '
+      'before; in the support header FinalConstruct iterates all clients without early exit calling check_bindings, then '
+      'sets the flag, and every insertion into the client map (and write access to the arbitered port) is dominated by '
+      '`if (m_finalConstructed) throw`. That check_bindings() of Dezyne-generated ports tests every event is Dezyne\'s '
+      'code and not decided.',
+      'Trusted: python ast, E4/E5, clang++ 14 JSON AST, /verif/cxx/mock.')
+
+claim('C11',
+      'lock-discipline rules on the clang JSON AST of the explicit instantiations MutexWrapped<int> and '
+      'MultiClientSelector<MockPort> (who touches which field under which guard), plus a scope rule on the generated '
+      'out-event link template',
+      'Decides only the lock discipline, a necessary condition of race freedom: the mutex-wrapped value is private and '
+      'reachable only through operator(), which locks first and moves the lock into the deleter of the returned pointer '
+      '(by-value unique_lock, unlock iff owned: released on reset() and at scope exit); the selection is a private '
+      'MutexWrapped value that no method leaks; only Index() writes the client map, under the final-construct guard; '
+      'Select/Deselect take the selection lock exactly once (no self-deadlock, single mutex hence no lock-order cycle); '
+      'the generated out-event link delivers inside the scope of the lock. Deadlock freedom with re-entrant handlers, the '
+      'claim/select window and "keeps receiving until it itself releases" over interleavings are schedule properties '
+      'and are NOT decided by static analysis.',
+      'Trusted: clang++ 14 JSON AST of the explicit instantiations, the C++ standard\'s semantics of std::mutex / '
+      'unique_lock / unique_ptr, /verif/cxx/mock.')
+
 _pending = 'check not built yet in this round (design in DESIGN.md section 3); will be claimed when its rules run clean'
 for _n in range(1, 21):
     _p = f'C{_n:02d}'
